@@ -111,6 +111,15 @@ def _worker(jobfile: str) -> int:
     sys.dont_write_bytecode = True
     import logging
     logging.disable(logging.CRITICAL)
+    if job.get("prelude") == "uniq":
+        # a library user (or an earlier, unrelated generator) left the process-wide name generator in some state
+        from nunavut.lang._common import UniqueNameGenerator
+        UniqueNameGenerator.reset()
+        g = UniqueNameGenerator.get_instance()
+        for key in ("c", "cpp", "py", "html"):
+            for base in ("index", "result", "size_bytes", "sat", "err", "ptr", "origin", "i", "elem", "e", "tmp", "x"):
+                for _ in range(3):
+                    g(key, base, "_", "_")
     results = []
     for run in job["runs"]:
         results.append(_one_run(run))
@@ -125,13 +134,14 @@ def make_run(argv, out, cwd, transform=None):
     return {"argv": [str(a) for a in argv], "out": str(out), "cwd": str(cwd), "transform": transform}
 
 
-def exec_job(repo_src, scratch: pathlib.Path, name: str, runs, hashseed="0", fake_time=None, fake_step=1.0, timeout=600):
+def exec_job(repo_src, scratch: pathlib.Path, name: str, runs, hashseed="0", fake_time=None, fake_step=1.0, timeout=600,
+             prelude=None):
     """Run one job in a fresh interpreter.  Returns the list of per-run results (or raises on worker failure)."""
     jobdir = scratch / "jobs"
     jobdir.mkdir(parents=True, exist_ok=True)
     jf, rf = jobdir / f"{name}.job.json", jobdir / f"{name}.report.json"
     jf.write_text(json.dumps({"repo_src": str(repo_src), "fake_time": fake_time, "fake_step": fake_step,
-                              "runs": runs, "report": str(rf)}))
+                              "runs": runs, "report": str(rf), "prelude": prelude}))
     env = {k: v for k, v in os.environ.items() if k not in ("PYTHONPATH", "PYTHONHASHSEED", "DSDL_INCLUDE_PATH")}
     env["PYTHONHASHSEED"] = str(hashseed)
     env["PYTHONDONTWRITEBYTECODE"] = "1"
@@ -147,7 +157,7 @@ def exec_jobs(repo_src, scratch, jobs, max_workers=12):
     out = {}
     with concurrent.futures.ThreadPoolExecutor(max_workers=max_workers) as ex:
         futs = {ex.submit(exec_job, repo_src, scratch, j["name"], j["runs"], j.get("hashseed", "0"), j.get("fake_time"),
-                          j.get("fake_step", 1.0), j.get("timeout", 600)): j["name"] for j in jobs}
+                          j.get("fake_step", 1.0), j.get("timeout", 600), j.get("prelude")): j["name"] for j in jobs}
         for f in concurrent.futures.as_completed(futs):
             try:
                 out[futs[f]] = f.result()
@@ -192,6 +202,31 @@ def file_kind(lang: str, rel: str) -> str:
     if name.startswith("__init__") or name.startswith("index.") or name.startswith("Namespace"):
         return "namespace"
     return "type"
+
+
+def run_translator(ctx, repo):
+    """Regenerate Gen/TplFlows*.lean from the tree under check (fresh interpreter).  Returns the info dict; a translator
+    that can no longer express the source is a broken obligation."""
+    info_path = ctx.scratch / "tplflows_info.json"
+    verif = HERE.parent.parent
+    lock = verif / "lean" / ".lock"
+    import fcntl
+    with open(lock, "w") as lk:
+        fcntl.flock(lk, fcntl.LOCK_EX)      # Gen files are shared with concurrent checks (C07 / C10)
+        p = subprocess.run([PY, str(verif / "translate" / "tplflows.py"), "--repo", str(repo), "--info", str(info_path)],
+                           capture_output=True, text=True, timeout=600)
+    if not info_path.exists():
+        ctx.broken.append({"kind": "translator-crash", "translator": "tplflows", "stderr": p.stderr[-2000:]})
+        return None
+    info = json.loads(info_path.read_text())
+    if info.get("error"):
+        ctx.broken.append({"kind": "translator", "translator": "tplflows", "error": info["error"]})
+        return None
+    return info
+
+
+def parse_flags(ans: str) -> dict:
+    return {k: v == "1" for k, v in (t.split("=") for t in ans.split())}
 
 
 if __name__ == "__main__":
